@@ -39,7 +39,7 @@ def sub2(a, b):
     return (a[0] - b[0], a[1] - b[1])
 
 
-def sort_harness(n, perm):
+def sort_harness(n, perm, pin_first=False):
     """_check_and_sort_points on n points given in the order perm of a strictly convex counter-clockwise polygon q_0..q_{n-1}, in the code's own
     in-plane frame: Y_i = (p_i - c).v0, Z_i = (p_i - c).v1 are ghost coordinates (the two inner products are the only thing the body uses)"""
 
@@ -92,6 +92,10 @@ def sort_harness(n, perm):
             order = [perm[i] for i in idx]  # indices in the counter-clockwise polygon q
             rot = order.index(0)
             vc.ensure("the result is a cyclic rotation of the counter-clockwise order", [order[(rot + k) % n] for k in range(n)] == list(range(n)))
+            if pin_first:
+                # not part of C09 (the property leaves the start of the cycle free): a callee-contract clause for callers that hand in a cycle that is
+                # already counter-clockwise and rely on getting it back as given (props/C07: ConvexPolyhedron.move through ConvexPolygon.move)
+                vc.ensure("callee clause: the first given vertex stays first (a cycle given counter-clockwise comes back as given)", idx[0] == 0)
             vc.note("order %s" % order)
         vc.ensure("result is a tuple", isinstance(pg.points, tuple))
 
@@ -246,10 +250,8 @@ def h_negation(vc):
     vc.ensure("-plane: opposite normal, same point", out.returned and And(SP.veq(SP.vec(out.value.n), SP.neg(nv)), SP.veq(SP.vec(out.value.p), SP.vec(pg.plane.p))))
 
 
-def groups(tier):
-    from props.C01 import coord_stubs
+def make_sort_stubs():
     C.remember_originals()
-    cs = coord_stubs() + [(C.T_NORMALIZED, C.x_normalized), (C.T_LENGTH, C.x_length)]
 
     def plane_in_true(self, other):
         g = C.G()
@@ -258,7 +260,14 @@ def groups(tier):
             return True  # invariant: the given vertices lie in the plane (checked by the constructor front end)
         return C.ORIG["Plane.__contains__"](self, other)
 
-    sort_stubs = [(C.T_NORMALIZED, C.x_normalized_nonzero), (C.T_LENGTH, C.x_length), (C.T_PLANE_IN, plane_in_true), (C.T_PHASH, C.x_point_hash)]
+    return [(C.T_NORMALIZED, C.x_normalized_nonzero), (C.T_LENGTH, C.x_length), (C.T_PLANE_IN, plane_in_true), (C.T_PHASH, C.x_point_hash)]
+
+
+def groups(tier):
+    from props.C01 import coord_stubs
+    C.remember_originals()
+    cs = coord_stubs() + [(C.T_NORMALIZED, C.x_normalized), (C.T_LENGTH, C.x_length)]
+    sort_stubs = make_sort_stubs()
     gs = []
     for n in (3, 4):
         for perm in itertools.permutations(range(n)):
